@@ -1,3 +1,143 @@
-(* C12 — property theorems (placeholder while the tie is being developed) *)
-From JV Require Import Lib.Base Lib.C12Syntax Model.C12Cli Spec.C12CliSpec.
-Example C12_placeholder : True. Proof. exact I. Qed.
+(* C12 — property theorems only. Each is closed by `exact` of a lemma proved in Proofs/C12CliProofs.v.
+
+   auto_cli        : the code-shaped model of jsonargparse.auto_cli (Model/C12Cli.v): the argparse table of
+                     _add_signature_parameter, the per-level namespaces of parse_args, the nested Namespace,
+                     the dotted-key dispatch loop and _run_component with its pop("config") / pop("subcommand").
+   spec            : the reference semantics in the words of the property (Spec/C12CliSpec.v): the selected
+                     component is called once, each parameter bound to the LAST value given for it (converted
+                     to the declared type) or else to its default; no namespace, no key popping.
+   conv / as_pos   : every theorem holds for EVERY conversion function and both values of as_positional.
+   The two guards are exactly the finding classes of the correspondence judge (Corr/C12Judge.v). *)
+From JV Require Import Lib.Base Lib.C12Syntax Model.C12Cli Spec.C12CliSpec Proofs.C12CliProofs.
+
+(* The core: for all component trees (function, class with methods, list, nested dict), all tokenised
+   command lines and all conversions, inside the two guards the code-shaped model and the reference
+   semantics agree on EVERY outcome: the same call log and returned value when the component is run,
+   rejection of the command line exactly when the spec rejects it, refusal to build exactly when the
+   spec refuses, and never an exception escaping from the call (no missing / unexpected keyword). *)
+Theorem C12_binds_exactly :
+  forall (conv : ty -> raw -> option value) (as_pos : bool) (cs : components) (toks : list tok),
+    no_reserved_param_names cs = true -> no_private_optional_without_default cs = true ->
+    match auto_cli conv as_pos cs toks with
+    | Ok (log, ret) => spec conv as_pos cs toks = Done log ret
+    | Err EParse => spec conv as_pos cs toks = Rejected
+    | Err EBuild => spec conv as_pos cs toks = Refused
+    | Err ECrash => False
+    | Err _ => True      (* EUnmodelled / EFuel: the model declines to answer, nothing is claimed *)
+    end.
+Proof. exact model_refines_spec. Qed.
+Print Assumptions C12_binds_exactly.
+
+(* What a successful call looks like in the reference semantics: each parameter of the callee exactly
+   once, in signature order, nothing else; bound to sp_value = the last given value converted to the
+   declared type, else the default; every required parameter was given. *)
+Theorem C12_each_parameter_once :
+  forall (conv : ty -> raw -> option value) (s : sig) (asg : list (str * raw)) (b : list (str * value)),
+    sp_finish conv s asg = Some b -> NoDup (names s) ->
+    map fst b = names s /\
+    (forall p, In p s -> assoc (p_name p) b = sp_value conv asg p) /\
+    (forall p, In p s -> sp_required p = true -> exists r, last_asg (p_name p) asg = Some r).
+Proof. exact sp_finish_exact. Qed.
+Print Assumptions C12_each_parameter_once.
+
+Theorem C12_given_else_default :
+  forall (conv : ty -> raw -> option value) (asg : list (str * raw)) (p : param),
+    (forall r, sp_offered p = true -> last_asg (p_name p) asg = Some r -> sp_value conv asg p = conv (sp_ty p) r) /\
+    (last_asg (p_name p) asg = None -> sp_value conv asg p = sp_default p).
+Proof. exact given_else_default. Qed.
+Print Assumptions C12_given_else_default.
+
+(* The selected component and only it: in a list / dict of components the first bare word selects one
+   entry and the whole call log is that entry's ... *)
+Theorem C12_selected_only :
+  forall (conv : ty -> raw -> option value) (as_pos top : bool) (kids : list (str * comp)) (toks : list tok)
+         (asg : list (str * raw)) (npos : nat) (secs : list (str * doc)) (log : list call) (ret : retv),
+    sp_walk conv as_pos top (SGrp kids) asg npos secs toks = Some (log, ret) ->
+    exists pre m c lv' asg' secs' rest,
+      toks = pre ++ KPos (RStr m) :: rest /\ (forall t, In t pre -> exists d, t = KCfg d) /\
+      m <> s__help /\ assoc m kids = Some c /\ slevel_of c = Some lv' /\
+      sp_walk conv as_pos false lv' asg' 0 secs' rest = Some (log, ret).
+Proof. exact sp_walk_grp. Qed.
+Print Assumptions C12_selected_only.
+
+(* ... a function is called exactly once and its return value is returned ... *)
+Theorem C12_function_called_once :
+  forall (conv : ty -> raw -> option value) (as_pos top : bool) (n : str) (s : sig) (toks : list tok)
+         (asg : list (str * raw)) (npos : nat) (secs : list (str * doc)) (log : list call) (ret : retv),
+    sp_walk conv as_pos top (SFn n s) asg npos secs toks = Some (log, ret) ->
+    exists asg' b, sp_finish conv s asg' = Some b /\ log = [([n], b)] /\ ret = RetCall 0.
+Proof. exact sp_walk_fn. Qed.
+Print Assumptions C12_function_called_once.
+
+(* ... and for a class handed to auto_cli (model level, through C12_binds_exactly): the constructor is
+   called once with exactly the constructor's parameters, then the chosen method once with exactly its
+   own, and the method's return value is returned (the instance, for a class without methods). *)
+Theorem C12_class_split :
+  forall (conv : ty -> raw -> option value) (as_pos : bool) (n : str) (i : sig) (ms : list (str * sig))
+         (toks : list tok) (log : list call) (ret : retv),
+    no_reserved_param_names (One (CCls n i ms)) = true ->
+    no_private_optional_without_default (One (CCls n i ms)) = true ->
+    auto_cli conv as_pos (One (CCls n i ms)) toks = Ok (log, ret) ->
+    exists b1, map fst b1 = names i /\
+      ((ms = [] /\ log = [([n; s__init__], b1)] /\ ret = RetInstance) \/
+       (exists m s b2, assoc m ms = Some s /\ map fst b2 = names s /\
+                       log = [([n; s__init__], b1); ([n; m], b2)] /\ ret = RetCall 1)).
+Proof. exact class_split. Qed.
+Print Assumptions C12_class_split.
+
+(* _add_signature_parameter's table (code-shaped arg_of_param): required iff no default and not Optional;
+   positional iff required and as_positional; Optional without default = option defaulting to None. *)
+Theorem C12_required_iff_no_default :
+  forall (as_pos : bool) (p : param) (a : arg),
+    arg_of_param as_pos p = Some a ->
+    (a_req a = true <-> (p_default p = None /\ is_optional (p_ty p) = false)) /\
+    (a_pos a = true <-> (a_req a = true /\ as_pos = true)).
+Proof. exact required_iff_no_default. Qed.
+Print Assumptions C12_required_iff_no_default.
+
+Theorem C12_optional_defaults_none :
+  forall (as_pos : bool) (p : param),
+    p_default p = None -> is_optional (p_ty p) = true -> starts_underscore (p_name p) = false ->
+    arg_of_param as_pos p =
+    Some {| a_dest := p_name p; a_pos := false; a_ty := p_ty p; a_req := false; a_def := VNone |}.
+Proof. exact optional_defaults_none. Qed.
+Print Assumptions C12_optional_defaults_none.
+
+(* ---- the guards are needed: the unchanged code violates the property there (known findings) ------- *)
+(* def run(subcommand: int = 1), `--subcommand=5`: the callee receives 1, the property demands 5 *)
+Theorem C12_reserved_names_refuted :
+  exists cs toks,
+    no_reserved_param_names cs = false /\
+    auto_cli conv_simple true cs toks = Ok ([([w_run], [(s_subcommand, VInt 1)])], RetCall 0) /\
+    spec conv_simple true cs toks = Done [([w_run], [(s_subcommand, VInt 5)])] (RetCall 0).
+Proof. exact reserved_subcommand_refuted. Qed.
+Print Assumptions C12_reserved_names_refuted.
+
+(* class Tool: __init__(self, alpha: int = 1); train(self, config: int = 3), `train --config=7`: the method receives 3 *)
+Theorem C12_reserved_config_refuted :
+  exists cs toks,
+    no_reserved_param_names cs = false /\
+    auto_cli conv_simple true cs toks =
+      Ok ([([w_tool; s__init__], [(w_alpha, VInt 1)]); ([w_tool; w_train], [(s_config, VInt 3)])], RetCall 1) /\
+    spec conv_simple true cs toks =
+      Done [([w_tool; s__init__], [(w_alpha, VInt 1)]); ([w_tool; w_train], [(s_config, VInt 7)])] (RetCall 1).
+Proof. exact reserved_config_refuted. Qed.
+Print Assumptions C12_reserved_config_refuted.
+
+(* def run(_hid: Optional[int], sigma: bool), `true`: TypeError (missing '_hid') escapes; the property demands _hid=None *)
+Theorem C12_private_optional_refuted :
+  exists cs toks,
+    no_reserved_param_names cs = true /\ no_private_optional_without_default cs = false /\
+    auto_cli conv_simple true cs toks = Err ECrash /\
+    spec conv_simple true cs toks = Done [([w_run], [(w_hid, VNone); (w_sigma, VBool true)])] (RetCall 0).
+Proof. exact private_optional_refuted. Qed.
+Print Assumptions C12_private_optional_refuted.
+
+(* ---- the hypotheses are satisfiable by a non-trivial input: a dict holding a class with a method;
+        values from a --config section, positionally, by option (twice, last wins) and by default ---- *)
+Example C12_guards_satisfiable :
+  no_reserved_param_names w_ex_comps = true /\ no_private_optional_without_default w_ex_comps = true /\
+  auto_cli conv_simple true w_ex_comps w_ex_toks =
+    Ok ([([w_tool; s__init__], [(w_alpha, VInt 9); (w_beta, VStr w_sigma)]);
+         ([w_tool; w_train], [(w_alpha, VInt 5); (w_sigma, VBool true)])], RetCall 1).
+Proof. exact guards_satisfiable. Qed.
